@@ -16,7 +16,7 @@
 (*                    error is answered and the stream stays aligned       *)
 (* and requires the outcome to be the same in every universe.              *)
 (***************************************************************************)
-EXTENDS WireFrames, TLC, Json, IOUtils
+EXTENDS WireFrames, TLC, Json, IOUtils, U64
 
 Rec == ndJsonDeserialize(IOEnv.TRACE)
 N   == Len(Rec)
@@ -33,13 +33,16 @@ Count(c, rule) == IF \E i \in 1..Len(c) : c[i][1] = rule
                   THEN [i \in 1..Len(c) |-> IF c[i][1] = rule THEN <<rule, c[i][2] + 1>> ELSE c[i]]
                   ELSE Append(c, <<rule, 1>>)
 
+ProbeVal(f) == "76" \o TextHex(f.opq)
 RespOK(r) ==
     /\ r.short = 0 /\ r.magic = 129 /\ r.dt = 0 /\ r.st \in StatusTable /\ r.bl = r.al
     /\ Len(r.x) = 2 * r.el /\ Len(r.key) = 2 * r.kl
     /\ r.bl = r.el + r.kl + (Len(r.v) \div 2)
 Answers(r, f) == r.opq = f.opq /\ r.op = f.op
 
-Res(tags, rule) == [tags |-> tags, rule |-> rule]
+Res(tags, rule) == [tags |-> tags, rule |-> rule, lim |-> 1000000]
+(* a walk that ended because the connection ended: only the first `lim` frames may have been executed *)
+ResAt(rule, lim) == [tags |-> {}, rule |-> rule, lim |-> lim]
 
 RECURSIVE StartOf(_, _)
 StartOf(fr, i) == IF i = 1 THEN 0 ELSE StartOf(fr, i - 1) + HeaderLen + fr[i - 1].sent
@@ -52,7 +55,7 @@ Walk(fr, rs, fi, ri, how, cut) ==
         closedNow == ri > Len(rs) /\ how \in {"eof", "reset"}
     IN
     IF fi > Len(fr) THEN
-        IF cut < total THEN (IF closedNow THEN Res({}, "cut.closed") ELSE Res({"C18", "C12"}, "cut.extra.response"))
+        IF cut < total THEN (IF closedNow THEN ResAt("cut.closed", fi - 1) ELSE Res({"C18", "C12"}, "cut.extra.response"))
         \* all frames served: the sentinel noop must be answered, and nothing else
         ELSE IF ri = Len(rs) /\ how = "done" /\ rs[ri].opq = Sentinel /\ rs[ri].st = 0 THEN Res({}, "served")
         ELSE IF ri <= Len(rs) /\ rs[ri].opq # Sentinel THEN Res({"C12", "C09"}, "extra.response")
@@ -68,15 +71,15 @@ Walk(fr, rs, fi, ri, how, cut) ==
     IN
     IF ~allIn /\ ~(hdrIn /\ cls = "oversize") THEN
         \* the client stopped inside this frame: it is not executed, nothing more is answered (C18)
-        IF closedHere THEN Res({}, "cut.closed")
+        IF closedHere THEN ResAt("cut.closed", fi - 1)
         ELSE Res({"C18", "C09"}, "incomplete.frame.answered")
     ELSE IF cls = "oversize" THEN
         IF have /\ rs[ri].st = 3 THEN Walk(fr, rs, fi + 1, ri + 1, how, cut)
         ELSE Res({"C13"}, "oversize.bad")
     ELSE IF have /\ rs[ri].st = 3 THEN Res({"C13"}, "toolarge.within.limit")
     ELSE IF cls = "canonical" /\ oc = "quit" THEN
-        IF f.op = 7 THEN (IF have /\ rs[ri].st = 0 /\ ri = Len(rs) /\ how \in {"eof", "reset"} THEN Res({}, "quit") ELSE Res({"C12"}, "quit.bad"))
-        ELSE (IF closedHere THEN Res({}, "quitq") ELSE Res({"C12"}, "quitq.bad"))
+        IF f.op = 7 THEN (IF have /\ rs[ri].st = 0 /\ ri = Len(rs) /\ how \in {"eof", "reset"} THEN ResAt("quit", fi) ELSE Res({"C12"}, "quit.bad"))
+        ELSE (IF closedHere THEN ResAt("quitq", fi) ELSE Res({"C12"}, "quitq.bad"))
     ELSE IF cls = "canonical" THEN
         IF ~IsQuiet(f.op) THEN (IF have THEN Walk(fr, rs, fi + 1, ri + 1, how, cut) ELSE Res({"C12", "C09", "C18"}, "loud.unanswered"))
         ELSE IF have THEN
@@ -87,16 +90,24 @@ Walk(fr, rs, fi, ri, how, cut) ==
         ELSE IF IsQuiet(f.op) THEN Walk(fr, rs, fi + 1, ri, how, cut)
         ELSE Res({"C12"}, "unimpl.unanswered")
     ELSE \* odd or invalid
-        IF closedHere THEN Res({}, "closed." \o cls)
+        IF closedHere THEN ResAt("closed." \o cls, fi - 1)
         ELSE IF have /\ rs[ri].st # 0 THEN Walk(fr, rs, fi + 1, ri + 1, how, cut)
         ELSE IF cls = "invalid" THEN Res({"C10", "C09"}, "invalid.not.refused")
         ELSE Res({"C09"}, "odd.not.refused")
 
 Judge(e) ==
-    IF \E i \in 1..Len(e.r) : ~RespOK(e.r[i]) THEN Res({"C11"}, "malformed.response")
+    IF "panics" \in DOMAIN e /\ e.panics > 0 THEN Res({"C10"}, "server.task.panicked")
+    ELSE IF \E i \in 1..Len(e.r) : ~RespOK(e.r[i]) THEN Res({"C11"}, "malformed.response")
     ELSE IF e.how = "timeout" THEN Res({"C12", "C09", "C10"}, "no.answer.in.time")
     ELSE IF e.maxcap > sm.limit + Slack THEN Res({"C10"}, "buffer.bloat")
-    ELSE Walk(sm.frames, e.r, 1, 1, e.how, sm.cut)
+    ELSE LET w == Walk(sm.frames, e.r, 1, 1, e.how, sm.cut) IN
+         \* nothing received after the point at which the connection ended is executed: the driver's probe
+         \* stores write the value "v<opaque>", so a store entry names the frame that wrote it
+         IF w.tags = {} /\ \E i \in (w.lim + 1)..Len(sm.frames) : \E j \in 1..Len(e.store) : e.store[j].v = ProbeVal(sm.frames[i])
+         THEN Res(IF w.rule \in {"quit", "quitq"} THEN {"C12"} ELSE {"C18", "C09", "C10"}, "executed.after." \o w.rule)
+         \* and the body of an oversized request is never executed (its filler is made of set frames for key "inj")
+         ELSE IF w.tags = {} /\ \E j \in 1..Len(e.store) : e.store[j].k = "696e6a" THEN Res({"C13", "C10"}, "oversized.body.executed")
+         ELSE w
 
 (* a server closing a socket with unread input makes the kernel send RST instead of FIN *)
 Norm(how) == IF how = "reset" THEN "eof" ELSE how
